@@ -15,6 +15,7 @@ Definition sexp_of_read_out (o : read_out) : sexp :=
   | RMsg f => SList [ssym "msg"; sexp_of_fcall f]
   | ROverflow k => SList [ssym "overflow"; snat k]
   | RErr e => SList [ssym "err"; chan_err_class e]
+  | RPanic => SList [ssym "panic"]
   end.
 
 Definition sexp_of_write_res (w : write_res) : sexp :=
